@@ -393,4 +393,4 @@ def run(pid, tier, seed):
                 if built is not None:
                     evaluate(camp, "cols", nn, ctx, built)
     camp.merge(core.run_shards(shard, [dict(seed=core.seed_of(seed, s, 3), n_ctx=n) for s in range(shards)]))
-    return core.finish(pid, tier, seed, camp, RULE, t0, assumptions=["widths are visual columns of ASCII text, tab stops every 4"])
+    return core.finish(pid, tier, seed, camp, RULE, t0, replay_fn=replay, assumptions=["widths are visual columns of ASCII text, tab stops every 4"])
